@@ -560,14 +560,14 @@ func zzInSet(c byte, set string) bool {
 }
 
 // zzH14_tok_ops: texts of 3 symbolic bytes over the operator characters
-// "=<>/*!+" (thorough: all of "=<>/*!+-%&|^.~ ") and one digit / one letter
+// "=<>/*!" (thorough: all of "=<>/*!+-%&|^.~ ") and one digit / one letter
 // class: every multi-character operator and its longest-match neighbours.
 //
 //verif:unwind 300
 func zzH14_tok_ops() {
 	n := 3 + zzChoice("extra", zzParam("extra", 1, 1))
 	s := zzString("s", n)
-	alpha := "=<>/*!+"
+	alpha := "=<>/*!"
 	if zzParam("fullops", 0, 1) == 1 && n == 3 {
 		alpha = "=<>/*!+-%&|^.~ "
 	}
